@@ -110,6 +110,8 @@ func (w *World) regAllocKeys() {
 	w.regHeap(alAKey, ArrSort(SInt, SBool), nil)
 	w.regHeap(alKey+"@entry", ArrSort(SInt, SBool), nil)
 	w.regHeap(alAKey+"@entry", ArrSort(SInt, SBool), nil)
+	// ghost integer cells (positions of readers and the like): only contracts read and write them
+	w.regHeap("GH:int", ArrSort(SInt, SInt), nil)
 }
 
 func relName(fn *ssa.Function) string {
